@@ -111,7 +111,11 @@ def execute_cases(ctx):
                 mt = Multitask(algos, tasks, modes=modes, n_workers=2)
                 dbg = r.random() < 0.4                  # the debug flag only prints: tables and plan must be the same
                 meta["debug"] = dbg
-                with quiet(): mt.execute(n_trials=n_trials, n_jobs=2, debug=dbg)
+                try:
+                    with quiet(): mt.execute(n_trials=n_trials, n_jobs=r.choice([1, 2, 2, 4]), debug=dbg)
+                except Exception as ex_:
+                    ctx.violation(f"execute:raises {type(ex_).__name__}", f"Multitask(n={n}, m={m}, modes={modes!r}).execute(n_trials={n_trials}) raises {type(ex_).__name__}: {str(ex_)[:100]}", meta)
+                    continue
                 calls = read_call_log(logdir)
                 want = designated(n, m, modes)
                 from collections import Counter
